@@ -327,36 +327,6 @@ Section Strop.
     let ty := lower token_type in
     if str_eqb ty ty_all then ErrValue else run_steps steps ty token.
 
-  (* ---- functools.lru_cache(maxsize) around strop: key = (token, token_type); only returned
-          values are cached (an exception propagates and stores nothing); on a hit the entry
-          becomes most recent; on insertion beyond maxsize the least recent entry is dropped ---- *)
-  Definition ckey := (str * str)%type.
-  Definition ckey_eqb (a b : ckey) : bool := str_eqb (fst a) (fst b) && str_eqb (snd a) (snd b).
-  Definition cache := list (ckey * str).
-
-  Fixpoint cache_find (c : cache) (k : ckey) : option str :=
-    match c with
-    | [] => None
-    | (k', v) :: c' => if ckey_eqb k k' then Some v else cache_find c' k
-    end.
-
-  Fixpoint cache_remove (c : cache) (k : ckey) : cache :=
-    match c with
-    | [] => []
-    | (k', v) :: c' => if ckey_eqb k k' then c' else (k', v) :: cache_remove c' k
-    end.
-
-  Definition strop_cached (maxsize : nat) (c : cache) (token_type token : str) : cache * res :=
-    let k := (token, token_type) in
-    match cache_find c k with
-    | Some v => ((k, v) :: cache_remove c k, Ok v)
-    | None =>
-        match strop token_type token with
-        | Ok v => (firstn maxsize ((k, v) :: c), Ok v)
-        | e => (c, e)
-        end
-    end.
-
   (* ---- observable the property talks about: `matches a reserved pattern for this type` ---- *)
   Definition pats_of (ty : str) : list re :=
     match lookup (sc_patterns cfg) ty with Some ps => ps | None => [] end.
@@ -396,3 +366,76 @@ Fixpoint has_dunder (t : str) : bool :=
   | a :: ((b :: _) as t') => ((a =? 95) && (b =? 95)) || has_dunder t'
   | _ => false
   end.
+
+(* ---------------------------------------------------------------------------------- *)
+(* functools.lru_cache on TokenEncoder.strop                                           *)
+(* ---------------------------------------------------------------------------------- *)
+(* `@functools.lru_cache(maxsize=N) def strop(self, token, token_type)`: ONE cache per function object, i.e. shared by
+   every TokenEncoder of the process; the key is the tuple of the call's arguments -- which parameters take part is
+   regenerated from the decorated signature (Gen_Strop.strop_cache_key) -- and `self` is hashed by identity
+   (TokenEncoder defines no __eq__/__hash__: Gen_Strop.strop_self_by_identity).  A process is a family of encoders
+   `enc : nat -> strop_cfg` (object identity |-> the configuration its __init__ stored; no method assigns attributes
+   afterwards).  Only returned values are cached (an exception propagates and stores nothing); a hit moves the entry
+   to the front; an insertion beyond maxsize drops the least recently used entry. *)
+Inductive kparam := KSelf | KToken | KType.
+Definition model_cache_key : list kparam := [KSelf; KToken; KType].
+
+Definition skey := (nat * str * str)%type.           (* (id(self), token, token_type) *)
+Definition skey_eqb (a b : skey) : bool :=
+  Nat.eqb (fst (fst a)) (fst (fst b)) && str_eqb (snd (fst a)) (snd (fst b)) && str_eqb (snd a) (snd b).
+Definition scache := list (skey * str).
+
+Fixpoint scache_find (c : scache) (k : skey) : option str :=
+  match c with
+  | [] => None
+  | (k', v) :: c' => if skey_eqb k k' then Some v else scache_find c' k
+  end.
+
+Fixpoint scache_remove (c : scache) (k : skey) : scache :=
+  match c with
+  | [] => []
+  | (k', v) :: c' => if skey_eqb k k' then c' else (k', v) :: scache_remove c' k
+  end.
+
+Section Shared.
+  Variable u : uni.
+  Variable sp : ranges.
+  Variable enc : nat -> strop_cfg.
+  Variable maxsize : option nat.                     (* None: lru_cache(maxsize=None), unbounded *)
+
+  Definition trunc (c : scache) : scache := match maxsize with Some n => firstn n c | None => c end.
+
+  (* one call  <encoder i>.strop(token, token_type)  through the shared cache *)
+  Definition strop_shared (c : scache) (i : nat) (token_type token : str) : scache * res :=
+    let k := (i, token, token_type) in
+    match scache_find c k with
+    | Some v => ((k, v) :: scache_remove c k, Ok v)
+    | None =>
+        match strop u sp (enc i) token_type token with
+        | Ok v => (trunc ((k, v) :: c), Ok v)
+        | e => (c, e)
+        end
+    end.
+
+  (* a whole process: any interleaving of calls on any of its encoders *)
+  Fixpoint run_calls (c : scache) (calls : list skey) : list res :=
+    match calls with
+    | [] => []
+    | (i, tok, ty) :: rest => let r := strop_shared c i ty tok in snd r :: run_calls (fst r) rest
+    end.
+
+  (* what the property wants each call to return: its own encoder's uncached answer *)
+  Definition uncached (k : skey) : res := strop u sp (enc (fst (fst k))) (snd k) (snd (fst k)).
+
+  (* the same cache with a key that forgets `self` (NOT the code; used to show what the theorem excludes) *)
+  Definition strop_shared_noself (c : scache) (i : nat) (token_type token : str) : scache * res :=
+    let k := (O, token, token_type) in
+    match scache_find c k with
+    | Some v => ((k, v) :: scache_remove c k, Ok v)
+    | None =>
+        match strop u sp (enc i) token_type token with
+        | Ok v => (trunc ((k, v) :: c), Ok v)
+        | e => (c, e)
+        end
+    end.
+End Shared.
